@@ -43,11 +43,11 @@ FORMATS = ["black", "black", "fmt-cat", "fmt-black"]
 
 @st.composite
 def _case(draw, tier):
-    nfiles = draw(st.integers(1, 3))
+    nfiles = draw(st.sampled_from([1, 2, 2, 3]))
     files = []
     for f in range(nfiles):
         sites = []
-        for s in range(draw(st.integers(1, 3))):
+        for s in range(draw(st.sampled_from([1, 2, 3]))):
             kind = draw(st.sampled_from(["create", "fix", "long", "ext", "ext", "hasrepr", "ok"]))
             sites.append({"kind": kind, "v": draw(st.integers(0, 99))})
         files.append({"sites": sites, "clean": draw(st.booleans())})
